@@ -241,14 +241,16 @@ def _make_x_constraint_range(
 ) -> VersionConstraint:
     from poetry.core.constraints.version.version_range import VersionRange
 
-    if version.is_postrelease():
+    if version.is_devrelease():
+        # also for a dev release of a pre or post release: the next pre/post
+        # release would drop the dev segment and give an empty range
+        _next = version.next_devrelease()
+    elif version.is_postrelease():
         _next = version.next_postrelease()
     elif version.is_stable():
         _next = version.next_stable()
     elif version.is_prerelease():
         _next = version.next_prerelease()
-    elif version.is_devrelease():
-        _next = version.next_devrelease()
     else:
         raise RuntimeError("version is neither stable, nor pre-release nor dev-release")
 
